@@ -66,13 +66,26 @@ def run_once(d, lang, mode, env, tag):
     return r, sha, out
 
 
-def features(tree):
+def has_tie(tree):
+    return sum(1 for t in tree if t == "TieS") >= 2 or sum(1 for t in tree if t == "TieE") >= 2
+
+
+def features(tree, ignore_tie=False):
+    """what a tree can be blamed for. Two same-named definitions of one kind are a sufficient (and listed) cause of
+    arrival dependence, so a tree that has them is attributed to that alone; the other features of such trees are judged
+    in the sub-classes that keep the relative arrival order of the tied files fixed (ignore_tie)."""
+    if has_tie(tree) and not ignore_tie:
+        return "same-name-same-kind"
     f = []
     if sum(1 for t in tree if t in ("C", "SC", "Conly")) >= 2:
         f.append("consts-in-several-files")
-    if sum(1 for t in tree if t == "TieS") >= 2 or sum(1 for t in tree if t == "TieE") >= 2:
-        f.append("same-name-same-kind")
-    return "+".join(f) if f else "other:" + ",".join(sorted(set(tree)))
+    return "+".join(f) if f else "other:" + ",".join(sorted(set(t for t in tree if not (ignore_tie and t.startswith("Tie")))))
+
+
+def tie_order(tree, perm):
+    """relative arrival order of the files that define the same name"""
+    ties = [i + 1 for i, t in enumerate(tree) if t.startswith("Tie")]
+    return "<".join(str(p) for p in perm if p in ties)
 
 
 class Collector:
@@ -167,6 +180,10 @@ def run(chk):
                 raise ToolError(f"typeshare failed on a C06 tree {tree} ({lang}, {mode}): {r['stderr'][-300:]}")
             col.add(f"tree{idx}", sha, {"mode": mode, "dim": "arrival-order", "features": features(tree), "lang": lang,
                                         "detail": f"tree {tree} arrival {c['perm']}", "tree": tree, "perm": c["perm"]})
+            if has_tie(tree):      # with the tied files arriving in the same relative order nothing else may move either
+                col.add(f"tree{idx}/ties:{tie_order(tree, c['perm'])}", sha,
+                        {"mode": mode, "dim": "arrival-order", "features": features(tree, ignore_tie=True) + "(tie-order-fixed)", "lang": lang,
+                         "detail": f"tree {tree} arrival {c['perm']}", "tree": tree, "perm": c["perm"]})
             shas.setdefault(sha, []).append(c)
         ident = [sha for sha, cs in shas.items() if any(c["perm"] == sorted(c["perm"]) for c in cs)]
         for c, r, sha in out:
